@@ -20,9 +20,10 @@ from asyncsim_watch import cmds as cmdlib
 ID = "C16"
 MODULE = "DaliVerif.Props.C16"
 EXES = ["m_watch"]
-EXTRA_MODULES = ["DaliVerif.Props.C16Serial"]
+EXTRA_MODULES = ["DaliVerif.Props.C16Serial", "DaliVerif.Props.C16Seq"]
 EXTRA_THEOREMS = ["C16Serial.sci_send_shape", "C16Serial.flush_leaves_no_stale_report",
-                  "C16Serial.k6_witness_old_sci_send", "C16Serial.k6_repaired"]
+                  "C16Serial.k6_witness_old_sci_send", "C16Serial.k6_repaired",
+                  "C16Seq.late_report_is_dropped", "C16Seq.lowest_free_misroutes", "C16Seq.lowest_free_violates_routing"]
 GEN = True
 THEOREMS = ["constants_are_protocol", "typed_by_command", "none_iff_no_answer_expected",
             "tridonic_table", "hasseb_table", "daliserver_table", "luba_table", "sci_table", "atx_table",
